@@ -148,40 +148,58 @@ func ruleIOSafe(c *Ctx) *RuleResult {
 	r.floor("iosafe_declared_functions", 90)
 	usedExceptions := map[string]bool{}
 	totalReached := map[*ssa.Function]bool{}
-	for _, s := range sources {
-		reach := &Reach{p: p}
-		reach.Skip = func(callee *ssa.Function) bool {
-			return relPkg(funcPkgPath(callee)) == "safeio"
-		}
-		type hit struct {
-			e  *callgraph.Edge
-			st searchState
-		}
+	skipSafeio := func(callee *ssa.Function) bool { return relPkg(funcPkgPath(callee)) == "safeio" }
+	type hit struct {
+		e  *callgraph.Edge
+		st searchState
+	}
+	collect := func(reach *Reach, srcs []*ssa.Function) []hit {
 		var hits []hit
-		reach.Run([]*ssa.Function{s.fn}, func(e *callgraph.Edge, cur searchState) {
-			m := cur
-			if cur.mode == modeExtDynamic {
-				return
-			}
-			if p.InModule(e.Callee.Func) {
+		reach.Run(srcs, func(e *callgraph.Edge, cur searchState) {
+			if cur.mode == modeExtDynamic || p.InModule(e.Callee.Func) {
 				return
 			}
 			if _, ok := isIOSink(e.Callee.Func); ok {
-				hits = append(hits, hit{e, m})
+				hits = append(hits, hit{e, cur})
 			}
 		})
-		for _, f := range reach.ReachedModuleFuncs() {
-			totalReached[f] = true
+		return hits
+	}
+	// pass 1: all sources at once; only when a non-exception sink is reachable
+	// from somewhere is the per-source search (which attributes paths) needed.
+	var all []*ssa.Function
+	for _, s := range sources {
+		all = append(all, s.fn)
+	}
+	multi := &Reach{p: p, Skip: skipSafeio}
+	needPerSource := false
+	for _, h := range collect(multi, all) {
+		lastMod, boundary := boundaryOf(p, multi, h.st, h.e)
+		edgeKey := fnKey(lastMod) + "->" + fullName(boundary)
+		if _, ok := ioSinkExceptionEdges[edgeKey]; ok {
+			usedExceptions[edgeKey] = true
+			continue
 		}
+		needPerSource = true
+	}
+	for _, f := range multi.ReachedModuleFuncs() {
+		totalReached[f] = true
+	}
+	for _, s := range sources {
+		if !needPerSource {
+			r.ok(fmt.Sprintf("%s (%q): no sink reachable", fnKey(s.fn), s.reg.LuaName))
+			continue
+		}
+		reach := &Reach{p: p, Skip: skipSafeio}
+		hits := collect(reach, []*ssa.Function{s.fn})
 		reported := map[string]bool{}
 		for _, h := range hits {
 			path := reach.PathTo(h.st, h.e)
 			// find the boundary: last module function and the first external callee after it
 			lastMod, boundary := boundaryOf(p, reach, h.st, h.e)
 			edgeKey := fnKey(lastMod) + "->" + fullName(boundary)
-			if why, ok := ioSinkExceptionEdges[edgeKey]; ok {
+			if _, ok := ioSinkExceptionEdges[edgeKey]; ok {
 				usedExceptions[edgeKey] = true
-				_ = why
 				continue
 			}
 			key := fnKey(s.fn) + "=>" + edgeKey
